@@ -78,7 +78,62 @@ func hwriteWith(a []string, mixed bool) string {
 	return "ok " + showData(target.Bytes()) + " " + showHashers(hs)
 }
 
+// retainedDoc is a document type with list fields, decoded several times into ONE variable
+type retainedDoc struct {
+	Source          string
+	Binaries        []string                 `control:"Binary" delim:"," strip:"\n\r\t "`
+	ChecksumsSha256 []control.SHA256FileHash `control:"Checksums-Sha256" delim:"\n" strip:"\n\r\t "`
+	ChecksumsSha512 []control.SHA512FileHash `control:"Checksums-Sha512" delim:"\n" strip:"\n\r\t "`
+}
+
+func showRetained(b []string, a []control.SHA256FileHash, c []control.SHA512FileHash) string {
+	items := []string{}
+	for _, x := range b {
+		items = append(items, hx(x))
+	}
+	for _, x := range a {
+		items = append(items, showFileHash(x.FileHash))
+	}
+	for _, x := range c {
+		items = append(items, showFileHash(x.FileHash))
+	}
+	return showList(items)
+}
+
 func init() {
+	// cretained text: every paragraph of the document is decoded, one after the other, into the SAME struct variable
+	// (Decoder.Decode in a loop); the list values read from each paragraph are kept by the caller.  What was handed out for
+	// an earlier paragraph must still be that paragraph's entries after the later ones were decoded.
+	ops["cretained"] = func(a []string) string {
+		dec, err := control.NewDecoder(strings.NewReader(arg(a, 0)), nil)
+		if err != nil {
+			return "err"
+		}
+		var v retainedDoc
+		type kept struct {
+			b     []string
+			s256  []control.SHA256FileHash
+			s512  []control.SHA512FileHash
+			shown string
+		}
+		var all []kept
+		for i := 0; i < 50; i++ {
+			err := dec.Decode(&v)
+			if err == io.EOF {
+				break
+			}
+			if err != nil {
+				return "err"
+			}
+			all = append(all, kept{v.Binaries, v.ChecksumsSha256, v.ChecksumsSha512, showRetained(v.Binaries, v.ChecksumsSha256, v.ChecksumsSha512)})
+		}
+		for i, k := range all {
+			if showRetained(k.b, k.s256, k.s512) != k.shown {
+				return "changed paragraph " + strconv.Itoa(i) + " was " + k.shown + " is " + showRetained(k.b, k.s256, k.s512)
+			}
+		}
+		return "kept " + strconv.Itoa(len(all))
+	}
 	ops["hwrite"] = func(a []string) string { return hwriteWith(a, false) }
 	// hwrites: the same stream, but every second chunk is handed over with io.WriteString (and fmt.Fprint for every
 	// third): however the bytes are delivered to the writer, they are passed through, counted and hashed
